@@ -19,6 +19,12 @@ CLAIMED = {
  "C19": dict(technique="table extraction from the adapters' AST and from the resolved tss-lib source (registry lists, protobuf descriptors, MessageRouting literals), SSA guards and provenance for sender/digest binding",
              text="Sound static decision that the adapters' tables equal tss-lib's registered message types and routing classes, that broadcast rounds are distinct per phase, that classification derives from the received type URL only, that the hand-over is dominated by claimed==from and Sign's success by the digest comparison.",
              design="§4 C19"),
+ "C13": dict(technique="byte-lane abstract interpretation of SSA (encoder layout vs decoder layout), lane completeness of hashed identifiers, ASN.1 marshal/unmarshal type pairing",
+             text="Sound static decision that both hand-written codecs agree lane by lane for every 16-bit identifier, round and digest region, that id hashing covers both bytes and that stored data/public parameters are (un)marshalled as identical struct types with id fields >= 16 bits. Completion of sessions with large ids as behaviour is not decided.",
+             design="§4 C13"),
+ "C17": dict(technique="byte-lane layout comparison writer/reader, SSA dominance for the size limit and write order, who-may-call/who-may-write for the single writer, panic reachability from the sending side, failure-arm pairing",
+             text="Sound static decision of frame layout agreement (type, 32-bit little-endian length, 5-byte prefix, 32-byte topic, payload), the size limit on the wire-sized allocation, the single writer per connection, absence of peer-induced panics on the sending side and connection reset on failed writes. Delivery behaviour and fairness are not decided.",
+             design="§4 C17"),
 }
 NOT_APPLICABLE = {
  "C08": "completeness of blind/sign/unblind/PoK is an algebraic identity over runtime group elements; no clause is visible in the shape of the code (DESIGN.md §4 C08)",
